@@ -80,6 +80,8 @@ var paramRole = map[string]struct {
 	nth int
 }{
 	"locked":         {"bool", 0},
+	"isOffline":      {"bool", 0},
+	"concurrency":    {"int", 0},
 	"name":           {"string", 0},
 	"path":           {"string", 0},
 	"query":          {"string", 0},
